@@ -3,17 +3,21 @@
 (* Validation of OBSERVED output conversations (the output file is the      *)
 (* trace; no hook needed) against the contract of TcpOut.tla:               *)
 (*   SYN / SYN-ACK / ACK first, stamped with a carrier time of the first    *)
-(*   record; then for each exported record, in order, at most k data        *)
-(*   packets of its direction whose lengths add up to its n bytes, each     *)
-(*   stamped with the time of one of the record's k carriers; sequence and  *)
-(*   acknowledgement numbers gap-free and mutually consistent.              *)
-(* Ground truth (recs: direction, plaintext length, carrier times) comes    *)
+(*   exported record of a direction; then, PER DIRECTION and in that        *)
+(*   direction's record order, for each exported record at most k data      *)
+(*   packets whose lengths add up to its n bytes, each stamped with the     *)
+(*   time of one of the record's k carriers; sequence and acknowledgement   *)
+(*   numbers gap-free and mutually consistent.                              *)
+(* The relative order of records of DIFFERENT directions is not prescribed: *)
+(* with full-duplex traffic a record that spans several packets completes   *)
+(* after a record of the other direction that was sent later.               *)
+(* Ground truth (recs per direction: plaintext length, carrier times) comes *)
 (* from the harness that built the capture.  Times are indices of input     *)
 (* packets (-1 = no input packet has that time).                            *)
 (***************************************************************************)
 EXTENDS Naturals, Integers, Sequences, FiniteSets, TLC, Json
 
-Traces == JsonDeserialize("traces.json")   \* [id, recs: [[d, n, cars: seq of ints]], pkts: [[d, fl, seq, ack, len, ts]]]
+Traces == JsonDeserialize("traces.json")   \* [id, recs: [c: [[n, cars]], s: [[n, cars]]], pkts: [[d, fl, seq, ack, len, ts]]]
 N == Len(Traces)
 Dir == {"c", "s"}
 Other(d) == IF d = "c" THEN "s" ELSE "c"
@@ -22,36 +26,36 @@ VARIABLES tid, l, ri, used, parts, nxt
 vars == <<tid, l, ri, used, parts, nxt>>
 T == Traces[tid]
 P == T.pkts[l]
-NR == Len(T.recs)
+R(d) == T.recs[d]
+NR(d) == Len(R(d))
 
-CarSet(r) == { T.recs[r].cars[j] : j \in 1..Len(T.recs[r].cars) }
-\* first record that can still take data: skip completely consumed ones (empty records are complete at once)
-RECURSIVE Cur(_, _)
-Cur(r, u) == IF r <= NR /\ u = T.recs[r].n THEN Cur(r + 1, 0) ELSE r
+CarSet(d, r) == { R(d)[r].cars[j] : j \in 1..Len(R(d)[r].cars) }
+\* first record of direction d that is not empty
+FirstNonEmpty(d, r) == r \in 1..NR(d) /\ R(d)[r].n > 0 /\ \A j \in 1..(r - 1) : R(d)[j].n = 0
 
-Hs == /\ l <= 3 /\ NR >= 1
+Hs == /\ l <= 3
       /\ P.fl = (CASE l = 1 -> "S" [] l = 2 -> "SA" [] OTHER -> "A")
       /\ P.d = (IF l = 2 THEN "s" ELSE "c") /\ P.len = 0
       /\ P.seq = (IF l = 3 THEN 1 ELSE 0) /\ P.ack = (IF l = 1 THEN 0 ELSE 1)
-      /\ \E r \in 1..NR : P.ts \in CarSet(r) /\ \A j \in 1..(r - 1) : T.recs[j].n = 0   \* first exported record (empty ones may be skipped)
+      /\ \E d \in Dir : \E r \in 1..NR(d) : P.ts \in CarSet(d, r) /\ \A j \in 1..(r - 1) : R(d)[j].n = 0   \* first exported record of a direction
       /\ UNCHANGED <<ri, used, parts, nxt>>
 
-\* the record a data packet belongs to: the current one, or a later one when everything in between is complete
-Reachable(r) == \/ r = ri
-                \/ /\ r > ri /\ r <= NR /\ used = T.recs[ri].n
-                   /\ \A j \in (ri + 1)..(r - 1) : T.recs[j].n = 0
+\* the record of direction d a data packet belongs to: the current one, or a later one when everything in between is complete
+Reachable(d, r) == \/ r = ri[d]
+                   \/ /\ r > ri[d] /\ r <= NR(d) /\ (IF ri[d] = 0 THEN TRUE ELSE used[d] = R(d)[ri[d]].n)
+                      /\ \A j \in (ri[d] + 1)..(r - 1) : R(d)[j].n = 0
 DataPkt == /\ l > 3 /\ P.fl = "PA"
-           /\ \E r \in ri..NR :
-                LET u == IF r = ri THEN used ELSE 0
-                    p == IF r = ri THEN parts ELSE 0
-                IN /\ Reachable(r)
-                   /\ P.d = T.recs[r].d
-                   /\ u + P.len <= T.recs[r].n
-                   /\ p + 1 <= Len(T.recs[r].cars)                 \* at most k segments
-                   /\ P.ts \in CarSet(r)                            \* C07: time of a carrier of this record
-                   /\ P.seq = nxt[P.d] /\ P.ack = nxt[Other(P.d)]
-                   /\ ri' = r /\ used' = u + P.len /\ parts' = p + 1
-                   /\ nxt' = [nxt EXCEPT ![P.d] = @ + P.len]
+           /\ LET d == P.d IN
+              \E r \in (IF ri[d] = 0 THEN 1 ELSE ri[d])..NR(d) :
+                LET u == IF r = ri[d] THEN used[d] ELSE 0
+                    p == IF r = ri[d] THEN parts[d] ELSE 0
+                IN /\ Reachable(d, r)
+                   /\ u + P.len <= R(d)[r].n
+                   /\ p + 1 <= Len(R(d)[r].cars)                  \* at most k segments
+                   /\ P.ts \in CarSet(d, r)                         \* C07: time of a carrier of this record
+                   /\ P.seq = nxt[d] /\ P.ack = nxt[Other(d)]
+                   /\ ri' = [ri EXCEPT ![d] = r] /\ used' = [used EXCEPT ![d] = u + P.len] /\ parts' = [parts EXCEPT ![d] = p + 1]
+                   /\ nxt' = [nxt EXCEPT ![d] = @ + P.len]
 
 AckPkt == /\ l > 3 /\ P.fl = "A" /\ P.len = 0
           /\ P.seq = nxt[P.d] /\ P.ack = nxt[Other(P.d)]
@@ -59,13 +63,15 @@ AckPkt == /\ l > 3 /\ P.fl = "A" /\ P.len = 0
 
 Step == /\ l <= Len(T.pkts) /\ (Hs \/ DataPkt \/ AckPkt) /\ l' = l + 1 /\ UNCHANGED tid
 
-Complete == Cur(ri, used) = NR + 1 \/ (Len(T.pkts) = 0 /\ \A r \in 1..NR : T.recs[r].n = 0)
-Done == l = Len(T.pkts) + 1 /\ Complete
-Reset == l' = 1 /\ ri' = 1 /\ used' = 0 /\ parts' = 0 /\ nxt' = [d \in Dir |-> 1]
+\* every record of every direction is completely exported
+CompleteDir(d) == \A r \in 1..NR(d) : R(d)[r].n = 0 \/ r < ri[d] \/ (r = ri[d] /\ used[d] = R(d)[r].n)
+Done == l = Len(T.pkts) + 1 /\ CompleteDir("c") /\ CompleteDir("s")
+Zero == [d \in Dir |-> 0]
+Reset == l' = 1 /\ ri' = Zero /\ used' = Zero /\ parts' = Zero /\ nxt' = [d \in Dir |-> 1]
 NextTrace == /\ (Done => TLCSet(1, TLCGet(1) \cup {T.id}))
              /\ TLCSet(2, [TLCGet(2) EXCEPT ![tid] = IF @ > l THEN @ ELSE l])
              /\ IF tid < N THEN tid' = tid + 1 /\ Reset ELSE UNCHANGED vars
-Init == /\ tid = 1 /\ l = 1 /\ ri = 1 /\ used = 0 /\ parts = 0 /\ nxt = [d \in Dir |-> 1]
+Init == /\ tid = 1 /\ l = 1 /\ ri = Zero /\ used = Zero /\ parts = Zero /\ nxt = [d \in Dir |-> 1]
         /\ TLCSet(1, {}) /\ TLCSet(2, [i \in 1..N |-> 0])
 Next == Step \/ NextTrace
 Spec == Init /\ [][Next]_vars
